@@ -725,6 +725,16 @@ package rosmar
 //@   ensures [C19:NextBytes.one-row-per-call] !isnull(result) ==> count("rows.next") == 1 && count("rows.scan") == 1
 //@   ensures [C19:NextBytes.end] count("rows.end") == 1 ==> isnull(result)
 
+// The query text: `$_keyspace` becomes a common table expression that ranges over exactly the live documents of this
+// collection. The WHERE clause and the column expressions of the CTE are evaluated by the engine's SQL semantics over
+// an arbitrary row, so any textually different but equivalent spelling is accepted and any inequivalent one refuted.
+//@ fn (*Collection).prepareQuery
+//@   loop 1 invariant [C19:prepareQuery.args-loop] true
+//@   ensures [C19:prepareQuery.shape] cteOK(result0)
+//@   ensures [C19:prepareQuery.live-docs-of-this-collection] forall o: DocId :: cteWhere(result0, o) <==> (docAt(o).present && o.coll == c.id && !isnull(docAt(o).value))
+//@   ensures [C19:prepareQuery.columns] cteCols(result0) == 3 && (forall o: DocId :: cteCol(result0, "id", o) == o.key && cteCol(result0, "body", o) == docAt(o).value && cteCol(result0, "xattrs", o) == docAt(o).xattrs)
+//@   ensures [C19:prepareQuery.no-sql] count("sql") == 0
+
 // ---------------------------------------------------------------------------------------------------------------
 // views.go / designdoc.go (C12: the incremental index is told about exactly the right documents; the map pipeline,
 // collation and reduce are external and not reached)
